@@ -251,7 +251,8 @@ def handleTimed (st : DState) (j : Json) : Except String Json := do
   let inOrder : Bool ← optField j "inOrder" true
   -- the closed form of C11 speaks about files sorted by departure time; the ledger statement of C03 does not care
   let mon := Timed.violClock sim.time sim.dt obs ++ (if inOrder then Timed.violRequests cfg sim.time sim.dt picks rows obs else []) ++
-    Timed.violResolved picks obs ++ Timed.violPrices names sim.time sim.dt prices initial obs
+    Timed.violResolved picks obs ++ Timed.violPrices names sim.time sim.dt prices initial obs ++
+    Timed.violPairs fleets sim.vehicles rows obs
   pure (Json.mkObj [("diff", strs (diffs.take 12)), ("mon", strs (mon.take 12))])
 
 deriving instance FromJson for Shift.Entry
@@ -326,7 +327,13 @@ def handleDispatch (j : Json) : Except String Json := do
   let ranges : List (VehicleId × Option Rat) ← getField j "ranges"
   let calls : List DispatchCall ← getField j "calls"
   let costTbl : List (Nat × Nat × Int) ← getField j "cost"
-  let range (v : VehicleId) : Option Rat := (ranges.find? (·.1 == v)).bind (·.2)
+  let kmPerUnit : List (VehicleId × Rat) ← optField j "kmPerUnit" []
+  -- the remaining range from the model (level × nominal distance per unit); the implementation's own
+  -- answer is compared with it, and is used only where the harness could not read the nominal value
+  let range (v : VehicleId) : Option Rat :=
+    match sim.vehicle? v, kmPerUnit.find? (·.1 == v) with
+    | some veh, some k => some (Dispatch.rangeKm veh.en.level k.2)
+    | _, _ => (ranges.find? (·.1 == v)).bind (·.2)
   let costFn (v r : Nat) : Int := match costTbl.find? (fun t => t.1 == v && t.2.1 == r) with
     | some t => t.2.2
     | none => 0
@@ -335,6 +342,12 @@ def handleDispatch (j : Json) : Except String Json := do
   let mut mon : List String := []
   let mut usedV : List VehicleId := []
   let mut usedR : List RequestId := []
+  for (v, r) in ranges do
+    match r, range v with
+    | some impl, some m =>
+      if !(ratAbs (impl - m) ≤ absTol m) then
+        mon := mon ++ [s!"C12/range| vehicle {v} reports {Val.show (.q impl)} km of remaining range (the eligibility test uses it); its energy level and nominal consumption give {Val.show (.q m)} km"]
+    | _, _ => pure ()
   for c in calls do
     let V := Dispatch.vehiclesOf cfg range usedV c.fleet sim
     let R := Dispatch.requestsOf usedR c.fleet sim
@@ -422,6 +435,14 @@ def handleRouter (j : Json) : Except String Json := do
           let t := Router.walkTime net qy.nodePath
           mon := mon ++ [s!"C14/not-fastest| {qy.kind} query: the junction path {qy.nodePath} from {src.v} to {dst.u} takes {repr t} s, the fastest walk takes {repr (pot dst.u)} s"]
       | _, _ => mon := mon ++ [s!"C13/route-shape| query names a link that is not in the network"]
+  -- the link table vehicles are moved with must say what the searched graph says: a link's length
+  -- and speed give the travel time of the edge it was built from (else "fastest" by the graph is
+  -- not fastest for the vehicles)
+  for l in net do
+    if l.link.speed > 0 then
+      let t := l.link.dist / l.link.speed * 3600
+      if !(ratAbs (t - l.time) ≤ absTol l.time) then
+        mon := mon ++ [s!"C14/link-table| link {l.u}-{l.v}: its length and speed in the link table give {Val.show (.q t)} s, the graph edge the search uses takes {Val.show (.q l.time)} s"]
   for sn in snaps do
     if !sn.ok then
       mon := mon ++ [s!"C13/snap| position_from_geoid of cell {sn.cell} names link {repr sn.link} but the cell it returns is not on that link"]
